@@ -37,8 +37,43 @@ def setup():
                             PickleType)
     from sqlalchemy.orm import (Session, declarative_base, relationship, backref, attributes, object_session, make_transient, exc as orm_exc,
                                 attribute_keyed_dict)
-    from sqlalchemy.ext.mutable import MutableDict, MutableList
+    from sqlalchemy.ext.mutable import MutableDict, MutableList, MutableSet, MutableComposite
+    from sqlalchemy.orm import composite
     from sqlalchemy.pool import QueuePool
+
+    class Point(MutableComposite):
+        """the MutableComposite recipe of the documentation (ext/mutable.py), picklable"""
+        def __init__(self, x, y):
+            self.x = x
+            self.y = y
+
+        def __setattr__(self, key, value):
+            object.__setattr__(self, key, value)
+            self.changed()
+
+        def __composite_values__(self):
+            return self.x, self.y
+
+        def __eq__(self, other):
+            return isinstance(other, Point) and other.x == self.x and other.y == self.y
+
+        def __ne__(self, other):
+            return not self.__eq__(other)
+
+        def __hash__(self):
+            return hash((self.x, self.y))
+
+        def __getstate__(self):
+            return self.x, self.y
+
+        def __setstate__(self, state):
+            self.x, self.y = state
+
+        def __repr__(self):
+            return "Point(%r, %r)" % (self.x, self.y)
+
+    Point.__module__, Point.__qualname__ = __name__, "Point"
+    globals()["Point"] = Point
     _m.update(locals())
     _m["universes"] = {name: _universe(name, cfg) for name, cfg in CASCADES.items()}
     _dir[0] = tempfile.mkdtemp(prefix="verif-orm-", dir="/dev/shm" if os.path.isdir("/dev/shm") else None)
@@ -50,6 +85,7 @@ def setup():
 def _universe(name, cfg):
     Column, Integer, String, ForeignKey, Table, JSON = _m["Column"], _m["Integer"], _m["String"], _m["ForeignKey"], _m["Table"], _m["JSON"]
     relationship, backref, MutableDict, MutableList = _m["relationship"], _m["backref"], _m["MutableDict"], _m["MutableList"]
+    MutableSet, composite, Point, PickleType = _m["MutableSet"], _m["composite"], _m["Point"], _m["PickleType"]
     Base = _m["declarative_base"]()
     b_t = Table("b_t", Base.metadata, Column("b_id", ForeignKey("b.id"), primary_key=True), Column("t_id", ForeignKey("t.id"), primary_key=True))
     nf = Table("nf", Base.metadata, Column("src", ForeignKey("node.id"), primary_key=True), Column("dst", ForeignKey("node.id"), primary_key=True))
@@ -151,9 +187,24 @@ def _universe(name, cfg):
         # dictionary collection keyed by an attribute of the member
         opts = relationship("O", back_populates="g", cascade="all, delete-orphan", collection_class=_m["attribute_keyed_dict"]("key"))
 
+    class M(Base):
+        """one attribute per Mutable* flavour (C49)"""
+        __tablename__ = "m"
+        id = Column(Integer, primary_key=True)
+        d = Column(MutableDict.as_mutable(JSON))
+        l = Column(MutableList.as_mutable(PickleType))
+        s = Column(MutableSet.as_mutable(PickleType))
+        x = Column(Integer)
+        y = Column(Integer)
+        pt = composite(Point, x, y)
+
+    # picklable although defined in a function: registered under a module-level name
+    M.__module__, M.__qualname__ = __name__, "M_" + name
+    globals()["M_" + name] = M
+
     from sqlalchemy.orm import configure_mappers
     configure_mappers()
-    classes = {"A": A, "A2": A2, "B": B, "T": T, "Node": Node, "K": K, "P": P, "BL": BL, "D": D, "H": H, "Q": Q, "R": R, "G": G, "O": O}
+    classes = {"M": M, "A": A, "A2": A2, "B": B, "T": T, "Node": Node, "K": K, "P": P, "BL": BL, "D": D, "H": H, "Q": Q, "R": R, "G": G, "O": O}
     # relationship descriptors: (class, attr) -> kind, target, reverse attr, cascade, fk info
     rels = {
         ("A", "bs"): dict(kind="o2m", target="B", rev="a", fk=("b", "a_id")),
@@ -180,11 +231,12 @@ def _universe(name, cfg):
             if c0 == "A":
                 rels[(cn, an)] = r
     scal = {"A": ["name"], "A2": ["name", "extra"], "B": ["val"], "T": ["name"], "Node": ["name"], "K": ["val"], "P": ["note"],
-            "BL": ["note"], "D": ["note"], "H": ["note"], "Q": ["note"], "R": ["note"], "G": ["note"], "O": ["val"]}
+            "BL": ["note"], "D": ["note"], "H": ["note"], "Q": ["note"], "R": ["note"], "G": ["note"], "O": ["val"], "M": []}
     tables = {"a": ["id", "name", "kind", "data", "items"], "a2": ["id", "extra"], "b": ["id", "a_id", "val"], "t": ["id", "name"],
               "b_t": ["b_id", "t_id"], "node": ["id", "parent_id", "name"], "nf": ["src", "dst"], "k": ["name", "val"],
               "p": ["id", "a_id", "note"], "bl": ["id", "note"], "d": ["id", "bl_id", "note"], "h": ["id", "d_id", "note"],
-              "q": ["id", "note"], "r": ["id", "q_id", "note"], "g": ["id", "note"], "o": ["id", "g_id", "val", "key"]}
+              "q": ["id", "note"], "r": ["id", "q_id", "note"], "g": ["id", "note"], "o": ["id", "g_id", "val", "key"],
+              "m": ["id", "d", "l", "s", "x", "y"]}
     return dict(name=name, cfg=cfg, Base=Base, classes=classes, rels=rels, scal=scal, tables=tables)
 
 
